@@ -22,7 +22,7 @@ import common
 from common import run_check
 
 PROP = "C17"
-KEYS = ["a", "b", "c", "d", "e", "f", "g"]
+KEYS = ["#", "a", "b", "c", "d", "e", "f", "g", "k#1"]          # partition keys may contain '#' (the separator of stored keys)
 VALUES = [1, 2, "x", [1, 2], {"k": 1}, 3.5, None, True, "y", 7, 0.5, 1.5, 2.5, 4.5, [], {"k": 2}, {"k": 3}, [3], [4],
           {"A": ["Ada"], "B": [1, 2]}]
 NESTED = 19        # this value is itself a partition (rendered as one; viewed as the dictionary of its entries)
@@ -336,6 +336,8 @@ def corpus():
         # every level published under one key override; all of them read back from disk in one process
         dict(backend="fs", mode="bottom-up", reret=False, override=True, levels=[lv({"a": 0, "b": 1}), lv({"b": 2, "c": 3}, "mem", True), lv({"d": 4}, "disk", True)]),
         dict(backend="fscache", mode="bottom-up", reret=True, override=True, levels=[lv({"a": 10, "b": 11}, "disk"), lv({"a": 12}, "mem", True)]),
+        # keys containing '#', published under a key override and read back
+        dict(backend="fs", mode="bottom-up", reret=False, override=True, levels=[lv({"k#1": 0, "#": 1, "a": 2}), lv({"k#1": 3, "b": 4}, "disk", True)]),
         # a value that is itself a partition, staged on disk / in memory
         dict(backend="fs", mode="bottom-up", reret=False, levels=[dict(own={"a": NESTED, "b": 1}, staging="disk", from_store=False), lv({"c": NESTED}, "mem", True)]),
         dict(backend="fscache", mode="bottom-up", reret=True, levels=[dict(own={"a": NESTED}, staging="disk", from_store=True)]),
